@@ -352,11 +352,13 @@ fn run<K: Kind>(h: &Hist) -> RunOut {
     let (_s, n1) = armed(|| h1.to_string());
     let mut rd: &[u8] = &data[..data.len().min(64)];
     let (_r, n2) = armed(|| K::hash_stream(&mut rd).is_ok());
+    // the harness's own allocation: independent of how the library implements its conveniences
+    let (_v, n3) = armed(|| std::hint::black_box(Vec::<u8>::with_capacity(std::hint::black_box(48))));
     HARD_FAIL.store(was_hard, Ordering::Relaxed);
-    if n1 == 0 || n2 == 0 {
-        crate::harness_error("allocation monitor is blind: to_string()/hash_stream showed no allocation");
+    if n1 == 0 || n3 == 0 {
+        crate::harness_error("allocation monitor is blind: to_string() / a Vec allocation showed no allocation");
     }
-    RunOut { violation, digest: fnv.finish(), states, armed_calls, neg_control_allocs: n1 + n2 }
+    RunOut { violation, digest: fnv.finish(), states, armed_calls, neg_control_allocs: n1 + n2 + n3 }
 }
 
 fn draw_aop(r: &mut Rng, dlen: usize) -> AOp {
